@@ -8,7 +8,7 @@ from vlib.core import Case
 PROP = "C12"
 SPEC_MODE = "oracle"
 KEEP_PREFIX = 1
-SIZES = {"quick": 23000, "thorough": 225000}
+SIZES = {"quick": 30000, "thorough": 290000}
 BATCH = 5000
 SEARCH_TRIES = 60
 EXTRA_MODULES = ("Sentinel.Lemmas.BreakerRace",)
@@ -19,7 +19,7 @@ RULE = ("cases = one real breaker (error count / error ratio / slow ratio; timeo
         "threads ALL interleavings (binary strings with exactly maxsteps(t) entries per thread; finished threads are skipped, the rest drained), for the "
         "base configuration in quick and for all configurations in thorough; part 2: the same with a tick of timeout-1/timeout ms inserted and with "
         "two-call threads (sampled); part 3: random 2-3 thread programs (1-3 calls) with random schedules, a fixed slice aimed at each known-finding "
-        "window. rule reloads (LoadRules with an identical / equal / tuned but stat-reusable rule as one schedule step `rd:`) while calls are under way on the old breaker object: 644 exhaustive cases in quick (11 592 in thorough) + 10 % of the random stream; two breakers per resource with LoadRulesOfResource(list) by one thread — `x` entries = yield points inside the rebuild — interleaved with request threads: 336 exhaustive cases in quick (2 016 in thorough) + 8 % of the random stream; requests through contexts without a SentinelEntry (`tpn`) in the random programs; 8 % two-probe cases (two breakers that trip together, the first with a probe quota, so that entries of different threads hold probes of different breakers at once; real WhenExit/Exit hooks); non-trivial = the state word changed during the concurrent phase; distinct by (configuration, set-up, sequence of (thread, yield point) steps)")
+        "window. rule reloads (LoadRules with an identical / equal / tuned but stat-reusable rule as one schedule step `rd:`) while calls are under way on the old breaker object: 644 exhaustive cases in quick (11 592 in thorough) + 10 % of the random stream; two breakers per resource with LoadRulesOfResource(list) by one thread — `x` entries = yield points inside the rebuild — interleaved with request threads: 336 exhaustive cases in quick (2 016 in thorough) + 8 % of the random stream; requests through contexts without a SentinelEntry (`tpn`) in the random programs; the harness clock yields (`cb.x.clock`) between the clock read and the deadline load of the retry check, so schedules separate the two; 8 % two-probe cases (two breakers that trip together, the first with a probe quota, so that entries of different threads hold probes of different breakers at once; real WhenExit/Exit hooks); non-trivial = the state word changed during the concurrent phase; distinct by (configuration, set-up, sequence of (thread, yield point) steps)")
 
 
 def fbits(x):
@@ -44,7 +44,7 @@ CONFIGS = [
     ("ec", 997, 1, "1", 0, 0, 1, "c:1:ok", "c:1:err"),
 ]
 SETUPS = ["closed", "opened", "almost", "due", "halfopen", "halfopen-late"]
-MAXSTEPS = {"tp": 3, "tpb": 4, "tpn": 3, "c": 5, "rd": 1}
+MAXSTEPS = {"tp": 4, "tpb": 5, "tpn": 4, "c": 5, "rd": 1}
 
 
 def steps_of(call):
@@ -143,7 +143,7 @@ def exhaustive_reload(configs, setups):
             for a in (c[8], "tp"):
                 for how in ("thr", "same"):
                     progs = [[a], [reload_item(c, how), "tp"]]
-                    for k, s in enumerate(interleavings([steps_of(a), 1 + 3])):
+                    for k, s in enumerate(interleavings([steps_of(a), 1 + 4])):
                         yield case_of(f"r{ci}-{setup}-{a}-{how}-{k}", c, setup, progs, s, ("exhaustive-reload",))
 
 
@@ -185,7 +185,7 @@ def exhaustive_list(configs):
         for opened, tick in ((True, 0), (True, c[1]), (False, 0)):
             for spec in ("0,1,x", "1,0,x", "0,x", "x,0,1"):
                 other = ["tp", "tp"]
-                for k, s in enumerate(interleavings([1 + spec.count("x"), 6])):
+                for k, s in enumerate(interleavings([1 + spec.count("x"), 8])):
                     yield list_case(f"l{ci}-{int(opened)}-{tick}-{spec}-{k}", c, opened, tick, spec, [other], s, ("exhaustive-list",))
 
 
@@ -258,11 +258,11 @@ def stream(ctx):
     rng = ctx.rng
     quick = ctx.tier == "quick"
     # part 1: exhaustive two-thread interleavings
-    for case in exhaustive(CONFIGS[:1] if quick else CONFIGS):
+    for case in exhaustive(CONFIGS[:1] if quick else CONFIGS[:6]):
         yield case
-    for case in exhaustive_reload(CONFIGS[:1] if quick else CONFIGS, ["closed", "halfopen"] if quick else SETUPS):
+    for case in exhaustive_reload(CONFIGS[:1] if quick else CONFIGS[:6], ["closed", "halfopen"] if quick else SETUPS):
         yield case
-    for case in exhaustive_list(CONFIGS[:1] if quick else CONFIGS):
+    for case in exhaustive_list(CONFIGS[:1] if quick else CONFIGS[:6]):
         yield case
     i = 0
     while True:
@@ -353,9 +353,9 @@ def run(ctx):
         n = 4000 if ctx.tier == "quick" else 40000
         st = stream(ctx)
         quick = ctx.tier == "quick"
-        skip = (sum(1 for _ in exhaustive(CONFIGS[:1] if quick else CONFIGS))
-                + sum(1 for _ in exhaustive_reload(CONFIGS[:1] if quick else CONFIGS, ["closed", "halfopen"] if quick else SETUPS))
-                + sum(1 for _ in exhaustive_list(CONFIGS[:1] if quick else CONFIGS)))
+        skip = (sum(1 for _ in exhaustive(CONFIGS[:1] if quick else CONFIGS[:6]))
+                + sum(1 for _ in exhaustive_reload(CONFIGS[:1] if quick else CONFIGS[:6], ["closed", "halfopen"] if quick else SETUPS))
+                + sum(1 for _ in exhaustive_list(CONFIGS[:1] if quick else CONFIGS[:6])))
         cases = list(itertools.islice(st, skip, skip + n))
         text = core.cases_text(cases)
         impl, err = core.run_impl(eng.binary, PROP, text)
